@@ -149,7 +149,7 @@ def run_variant(arg):
 
 
 def main(a):
-    import pyimpspec  # noqa
+    import pyimpspec
     thorough = a.tier != "quick"
     data = datasets(a.seed, thorough)
     tfs = transforms(thorough)
@@ -162,8 +162,19 @@ def main(a):
                     for addL in ((True,) if test.endswith("-inv") else (False, True)):
                         for lf in lfs:
                             args.append((name, f, Z, n, desc, test, adm, addC, addL, lf, tfs))
+    probe = ""
+    if not thorough:
+        # seed-independent probe of the open known finding (lstsq/pinv rank truncation at f x 1e4 with C and L columns): same contract,
+        # tolerances and keys as the thorough tier, so that the quick tier exercises ^fscale=(1e4|1e6|1e-6):(C-column|L-column|C\+L-columns): too
+        d = pyimpspec.generate_mock_data("CIRCUIT_1", noise=5e-2, seed=42)[0]
+        pf, pZ = d.get_frequencies().copy(), d.get_impedances().copy()
+        for test in ("complex", "imaginary"):
+            for adm in (False, True):
+                args.append(("CIRCUIT_1-probe", pf, pZ, 9, "pyimpspec.generate_mock_data('CIRCUIT_1', noise=5e-2, seed=42)[0] (fixed known-finding probe)",
+                             test, adm, True, True, 0.0, [("fscale", 1e4)]))
+        probe = "; plus a fixed probe: CIRCUIT_1 (seed 42) x {complex, imaginary} x {Z,Y} x C+L columns x frequencies x 1e4"
     res = Result("C09", f"{len(data)} spectra ({', '.join(d[0] for d in data)}; f_max <= 1e4 Hz, 0.05 % noise) x 6 linear tests x {{Z,Y}} x add_capacitance x add_inductance "
-                        f"x fixed num_RC (~2/decade) x log_F_ext in {list(lfs)} x transformations {[(k, c) for k, c in tfs]}",
+                        f"x fixed num_RC (~2/decade) x log_F_ext in {list(lfs)} x transformations {[(k, c) for k, c in tfs]}{probe}",
                  "full cross product; each case compares the run on the transformed spectrum with the run on the original one (two-run relation); "
                  "distinct = distinct (spectrum, options, transformation); non-trivial = the original fit has non-zero residuals")
     worst, notes = {}, []
